@@ -108,7 +108,7 @@ class Ctx:
         st = out.get("stats", {})
         for k in ("assign_choices", "inversions", "stalls", "tasks", "workers_forked", "bytes_task", "bytes_result",
                   "task_exceptions", "bytes_destroyed", "worker_output_handles", "rounds_with_tasks", "unordered_maps",
-                  "late_starts"):
+                  "late_starts", "fd_limited_workers"):
             self.faults[k] = self.faults.get(k, 0) + st.get(k, 0)
         for k in ("max_overtaken", "max_tasks_one_worker"):
             self.faults[k] = max(self.faults.get(k, 0), st.get(k, 0))
@@ -117,6 +117,12 @@ class Ctx:
             self.faults["stream_executions"] = self.faults.get("stream_executions", 0) + 1
             if not ex["stream"].get("seekable", True):
                 self.faults["nonseekable_executions"] = self.faults.get("nonseekable_executions", 0) + 1
+        if ex.get("stale"):
+            self.faults["stale_output_executions"] = self.faults.get("stale_output_executions", 0) + 1
+        if ex.get("prelude"):
+            self.faults["prelude_run_executions"] = self.faults.get("prelude_run_executions", 0) + 1
+        if ex.get("fd_margin"):
+            self.faults["fd_limited_executions"] = self.faults.get("fd_limited_executions", 0) + 1
         if ex.get("cpus") is None:
             self.faults["default_cpus_executions"] = self.faults.get("default_cpus_executions", 0) + 1
         for n in st.get("nodes", []):
